@@ -214,7 +214,7 @@ PROPERTIES = {
         "level": "exploration",
         "rule": ("declared gate chains [g0..gk], k = 1..20 hops (a twelfth: 17..50 hops, mostly without channels, so that more than 16 hops are traversed within one event), gates on one module / a line of modules / random modules, named gates or clusters (a third of the cases creates the cluster members one by one with create_raw_gate: in descending order, starting in the middle, or with a foreign gate between the first and second member), channels "
                  "(bitrate, latency, a quarter of them with a small jitter: the arrival must then lie in [sum, sum + jitters]) on random hops; built by connect calls in EVERY permutation for k <= 5 (every orientation vector for k <= 4) "
-                 "and random permutations / orientations above, with repeated calls mixed in; 1..4 uncontended messages per chain in both directions with send "
+                 "and random permutations / orientations above, with repeated calls mixed in; every 200 cases a hop is connected while the simulation runs, from the channel object of a hop that is transmitting, and three well separated messages over it must each arrive exactly once after transmission time + latency; 1..4 uncontended messages per chain in both directions with send "
                  "and send_in, a fifth of them sent by a third module through a reference to the end gate (which, in a third of the cases, shuts itself down in the event of its last send). Oracle = the declared chain: kind of every gate, path_iter from both ends (exact mirror images), path_end, channel(), symmetry "
                  "after each connect, idempotence of repeated connects, rejection of a third peer; each message handled exactly once, by the owner of the far "
                  "end, at send time + sum of per-hop (latency + size*8/bitrate), with sender id, receiver id and last gate in the header. Non-trivial = chain "
@@ -229,10 +229,10 @@ PROPERTIES = {
                       "enumerated_connect_orders": 1000, "chains_with_channels": 30000, "chains_with_reverse_sends": 30000, "max_hops": 45,
                       "chains_with_more_than_16_consecutive_hops_without_channel": 1000,
                       "sends_by_a_third_module_through_a_gate_reference": 10000,
-                      "chains_over_clusters_created_member_by_member_out_of_order": 3000},
+                      "chains_over_clusters_created_member_by_member_out_of_order": 3000, "hops_connected_at_run_time_from_a_busy_channel": 150},
             "thorough": {"deliveries_checked": 2000000, "chain_walks_checked": 2000000, "repeated_connect_calls": 400000, "third_peer_rejections": 1000000,
                          "enumerated_connect_orders": 1000, "max_hops": 20,
-                         "chains_over_clusters_created_member_by_member_out_of_order": 60000},
+                         "chains_over_clusters_created_member_by_member_out_of_order": 60000, "hops_connected_at_run_time_from_a_busy_channel": 3000},
         },
     },
     "C19": {
@@ -241,7 +241,7 @@ PROPERTIES = {
                  "one module, multi edges, disconnected parts, unconnected gates, chains through 0..15 transit gates (16 hops = the documented limit); for each: the "
                  "global view, the view spanned from EVERY module, a node-filtered and an edge-filtered view, dijkstra from EVERY source. Oracle = reference digraph "
                  "from the declaration (one edge per chain endpoint, labelled with the two endpoint gates) + BFS: node multiset, edge multiset (src, dst, start "
-                 "gate, end gate), gate owners match edge ends, edges_for, connected / bidirectional by definition, filter results, dijkstra keys = reachable "
+                 "gate, end gate), gate owners match edge ends, edges_for (by path and by node handle: count and start node), connected / bidirectional by definition, filter results, dijkstra keys = reachable "
                  "set and 1 + dist(first hop, v) == dist(src, v). Non-trivial = graph with >= 3 modules and >= 2 chains; distinct = hash of the case."),
         "assumptions": [],
         "stages": [
@@ -447,7 +447,7 @@ PROPERTIES = {
                  "des::runtime::random, choose the out gate and an extra send_in delay from it; start delays drawn with des::runtime::sample; tasks with "
                  "unbiased tokio::select! over three ready futures, select over interval.tick vs a long sleep, random sleeps; a third of the modules requests "
                  "shutdown-and-restart (the restart rebuilds and reseeds the module's tokio runtime), a third emits a message from at_sim_end (never dispatched; "
-                 "it must not reach a later simulation), a third runs 2..8 tasks that sleep to common deadlines and draw a random value when they wake; in half of the models two fifths of the message bodies are std HashMap<String,u32> / HashSet<String> tables of 17..80 entries with keys of differing length (per-instance random iteration order; the body size enters the message length and the transmission time over the 10 Mbit/s links, the length is part of the trace); the driver draws through Runtime::random / rng_sample and reads the clock between build and run. For each (model, seed): executed twice back to back, once "
+                 "it must not reach a later simulation), a third runs 2..8 tasks that sleep to common deadlines and draw a random value when they wake; in half of the models two fifths of the message bodies are std HashMap<String,u32> / HashSet<String> tables of 17..80 entries with keys of differing length (per-instance random iteration order; the body size enters the message length and the transmission time over the 10 Mbit/s links, the length is part of the trace); one model in 150 runs a task that yields 300000..500000 times within the first instant, its progress is part of the trace at every later event of its module (how far it got may depend on virtual time only, not on how long the executor needed); the driver draws through Runtime::random / rng_sample and reads the clock between build and run. For each (model, seed): executed twice back to back, once "
                  "more after an unrelated simulation of another shape and seed, and (every fourth model) in a separate child process started with a random junk "
                  "allocation. The trace = every delivery (time, module path, kind, id, content, source, value drawn), timer completion, task wake-up, select "
                  "branch, plus final time / event count / remaining / result; all executions must be byte-identical. Non-trivial = model whose trace "
@@ -459,10 +459,11 @@ PROPERTIES = {
         "floor": {
             "quick": {"executions_compared": 10000, "separate_process_executions_compared": 800, "select_choices_observed": 80000,
                       "random_draws_observed": 300000, "restarts_observed": 4000, "runs_with_channel_jitter": 2000,
-                      "models_whose_history_changes_with_the_seed": 1400, "hashed_collection_bodies_delivered": 40000},
+                      "models_whose_history_changes_with_the_seed": 1400, "hashed_collection_bodies_delivered": 40000,
+                      "models_with_a_task_of_over_300000_polls_in_one_instant": 15},
             "thorough": {"executions_compared": 200000, "separate_process_executions_compared": 16000, "select_choices_observed": 1600000,
                          "restarts_observed": 80000, "models_whose_history_changes_with_the_seed": 28000,
-                         "hashed_collection_bodies_delivered": 800000},
+                         "hashed_collection_bodies_delivered": 800000, "models_with_a_task_of_over_300000_polls_in_one_instant": 300},
         },
     },
     "C16": {
@@ -495,7 +496,7 @@ PROPERTIES = {
         "rule": ("flat dotted-key configurations of 1..8 entries over the segment alphabet {a, al, ali, alice, alicent, b, a1, non-ASCII names, x_y} with '<any>' at "
                  "any depth (also consecutive), entries that address a tested path / a truncated or extended path / a sibling whose name is a prefix, property "
                  "names of 1..2 segments, unique integer values; 1..4 module paths of depth 1..4. Observed through Cfg::capture_for_into and through a real "
-                 "simulation builder with include_cfg before and after the nodes (and their parents) are created, before creation with nodes that read their own properties while they are constructed, and with a builder option (with_stack) applied between the include and the creation: props_keys and prop_raw values. Oracle = "
+                 "simulation builder with include_cfg before and after the nodes (and their parents) are created, before creation with nodes that read their own properties while they are constructed, and with a builder option (with_stack) applied between the include and the creation; the same through the builder-chain form with_cfg and through include_cfg_file (temporary file), each before and after the nodes exist: props_keys and prop_raw values. Oracle = "
                  "independent matcher (split at '.', '<any>' matches exactly one segment, the rest is the property name, no '<any>' in the name): key sets equal, "
                  "each value is the value of a matching entry, no panic. Typed reads: random sequences of prop::<u64 / String / bool / Vec<u32> / f64> on four "
                  "keys: a successful read pins the type, other types must fail, the pinned / natural type stays readable; in half of the sequences a second configuration is included between the reads (specific or wildcard keys) that carries a value of another type for the properties already typed: type and value must survive. Non-trivial = case with a wildcard "
@@ -518,7 +519,7 @@ PROPERTIES = {
                  "inherited gates (atoms and clusters 1..3), submodule fields (atoms and clusters), generic modules with a bound whose fields are typed with the "
                  "binding and which are instantiated with the bound or an heir, connections local<->local, local<->child, child<->child (and endpoints two submodule levels down, child/grandchild/gate, pinned to single instances) as whole clusters (equal "
                  "instance counts, pairwise) or pinned single indices, optional links; every gate instance gets at most one connection per level. The document is "
-                 "rendered to YAML and goes through serde_yml -> Def -> transform -> Ndl::build into a Sim with a recording registry. Oracle = independent "
+                 "rendered to YAML and goes through serde_yml -> Def -> transform -> Ndl::build into a Sim with a recording registry; every second document takes one of the other public entry points instead (Ndl::from_str, Sim::nodes_from_ndl, Sim::with_ndl on a temporary file, Ndl::from_file), valid documents and mutants alike. Oracle = independent "
                  "reference elaborator: module set path -> software symbol (as seen by the registry), gate clusters per module, set of direct gate connections "
                  "with link latency / bitrate (read through both connection slots of every gate) must be equal, no more, no fewer. Then three single-point "
                  "mutations per document out of 24 operators (dangling type / inherit / entry / link, unknown gate / submodule, index out of bounds, index 0 into a non-cluster, zero-sized "
